@@ -113,7 +113,10 @@ func checkLen(c lenCase) error {
 	}
 	// Text fields in a spelling the packer may or may not accept (base64 without its padding, hex in
 	// upper case): if it packs, Len must still cover it
-	for _, r := range m.AllRecs() {
+	for ri, r := range m.AllRecs() {
+		if ri >= 8 {
+			break // long messages repeat one record
+		}
 		layout, ok := wm.LayoutOf(r.Type)
 		if !ok || r.NoRdata {
 			continue
@@ -125,6 +128,14 @@ func checkLen(c lenCase) error {
 		v := reflect.ValueOf(rr).Elem()
 		changed := false
 		for _, sp := range layout {
+			// a redundant length field (salt length, hash length, HIT length, key size ...) holding a
+			// stale value: the packer writes it as given; Len must not trust it for the payload
+			if sp.LenGo != "" {
+				if lf := v.FieldByName(sp.LenGo); lf.IsValid() && lf.CanUint() && lf.Uint() > 0 && (r.TTL%3 != 0) {
+					lf.SetUint([]uint64{0, 1, lf.Uint() - 1, lf.Uint() / 2}[int(r.TTL)%4])
+					changed = true
+				}
+			}
 			if sp.R != wm.ReprB64 && sp.R != wm.ReprHex {
 				continue
 			}
@@ -143,7 +154,7 @@ func checkLen(c lenCase) error {
 		if !changed {
 			continue
 		}
-		buf := make([]byte, 70000)
+		buf := make([]byte, 2*len(wm.EncodeRdata(r))+1024)
 		off, err := dns.PackRR(rr, buf, 0, nil, false)
 		if err != nil {
 			pbt.Class("lenient-spelling-refused")
@@ -151,7 +162,7 @@ func checkLen(c lenCase) error {
 		}
 		pbt.Class("lenient-spelling-packed")
 		if l := dns.Len(rr); l < off {
-			return pbt.Errf("Len(rr)=%d under-estimates the %d packed octets of a %s record whose text field is written without padding / in upper case", l, off, typeName(r.Type))
+			return pbt.Errf("Len(rr)=%d under-estimates the %d packed octets of a %s record with a lenient spelling / a stale redundant length field: %s", l, off, typeName(r.Type), rr)
 		}
 	}
 	// PackBuffer: a buffer larger than the uncompressed length is used in place
